@@ -445,8 +445,141 @@ def r26_forward_ref_op(text, log):
     return text
 
 
+def r27_entry_match(text, log):
+    """R27: `match M.entry(K) { [hash_map::]Entry::Occupied([mut] E) => A, [hash_map::]Entry::Vacant(F) => B }` where the arms
+    use the entries only as `E.get()` and `E.insert(X);` / `F.insert(X);` (value of insert discarded) ->
+    `match M.get(&(K)) { Some(E) => A[E.get() := E, E.insert(X) := M.insert(K, X)], None => B[F.insert(X) := M.insert(K, X)] }`.
+    ASSUMED (std entry API): Occupied iff K is present; `get()` is the present value; both `insert`s store X under K."""
+    m = L.mask(text)
+    mt = re.search(r"\bmatch\s+(\w+)\.entry\(", m)
+    if not mt:
+        raise Lost("R27: no `match M.entry(K) {`")
+    mp = mt.group(1)
+    po = mt.end() - 1
+    pc = L.match_close(m, po)
+    key = text[po + 1:pc].strip()
+    bo = m.index("{", pc)
+    if m[pc + 1:bo].strip():
+        raise Lost("R27: unexpected text between `entry(K)` and `{`")
+    bc = L.match_close(m, bo)
+    body = text[bo:bc + 1]
+    mb = m[bo:bc + 1]
+    occ = re.search(r"(?:\w+::)*Entry::Occupied\((?:mut\s+)?(\w+)\)\s*=>", mb)
+    vac = re.search(r"(?:\w+::)*Entry::Vacant\((\w+)\)\s*=>", mb)
+    if not occ or not vac or len(re.findall(r"=>", re.sub(r"<=|>=|==", "  ", mb))) < 2:
+        raise Lost("R27: arms are not `Entry::Occupied(e) => ..` and `Entry::Vacant(e) => ..`")
+    e, f = occ.group(1), vac.group(1)
+    before = text[mt.start():bc + 1]
+    body = body[:occ.start()] + "Some(" + e + ") =>" + body[occ.end():] if occ.start() < vac.start() else body
+    # redo on the rewritten text, arm by arm (positions moved)
+    mb = L.mask(body)
+    vac = re.search(r"(?:\w+::)*Entry::Vacant\((\w+)\)\s*=>", mb)
+    body = body[:vac.start()] + "None =>" + body[vac.end():]
+    body, n_get = re.subn(r"\b" + re.escape(e) + r"\.get\(\)", e, body)
+    n_ins = 0
+    for name in {e, f}:
+        while True:
+            mb = L.mask(body)
+            mi = re.search(r"\b" + re.escape(name) + r"\.insert\(", mb)
+            if not mi:
+                break
+            ic = L.match_close(mb, mi.end() - 1)
+            if not re.match(r"\s*;", mb[ic + 1:]):
+                raise Lost("R27: the value of `insert` on an entry is used")
+            body = body[:mi.start()] + f"{mp}.insert({key}, " + body[mi.end():]
+            n_ins += 1
+    mb = L.mask(body)
+    left = [x for x in (e, f) if re.search(r"\b" + re.escape(x) + r"\s*\.", mb)]
+    if left:
+        raise Lost(f"R27: entry binding {left[0]} is used other than through get() / insert(..);")
+    if n_ins == 0:
+        raise Lost("R27: no insert through the entry")
+    after = f"match {mp}.get(&({key})) " + body
+    log.append({"rule": "R27-entry-match", "before": before, "after": after, "assumed": "std entry API: Occupied iff present; get() = present value; insert stores under K"})
+    return text[:mt.start()] + after + text[bc + 1:]
+
+
+def r28_nested_entry_binding(text, log):
+    """R28: `let PAT: &mut _ = RECV.entry(K1).or_default().entry(K2).or_insert(INIT);  REST` (PAT a tuple-struct pattern of plain
+    names, REST the remainder of the function body, using the names only as `*name` or `name.method(..)`) ->
+    take the inner map out (or an empty one), take the slot out (or INIT), bind PAT by value, run REST with `*name` := `name`,
+    put the slot and the inner map back under the same keys.
+    ASSUMED (std entry API): `entry(k).or_default()` / `.or_insert(v)` is a mutable reference to the value stored under k,
+    storing `Default::default()` (an empty HashMap) / `v` first when k is absent."""
+    m = L.mask(text)
+    mt = re.search(r"\blet\s+(\w+)\(([\w\s,]*)\)\s*:\s*&mut\s+_\s*=\s*", m)
+    if not mt:
+        raise Lost("R28: no `let PAT: &mut _ = ..` binding")
+    ctor = mt.group(1)
+    names = [x.strip() for x in mt.group(2).split(",") if x.strip()]
+    semi = m.index(";", mt.end())
+    chain = re.sub(r"\s+", "", m[mt.end():semi])
+    cm = re.fullmatch(r"([\w.]+)\.entry\((.*?)\)\.or_default\(\)\.entry\((.*?)\)\.or_insert\((.*)\)", chain)
+    if not cm:
+        raise Lost("R28: the bound expression is not `R.entry(K1).or_default().entry(K2).or_insert(INIT)`")
+    raw = re.sub(r"\s+", " ", text[mt.end():semi]).replace(" .", ".").strip()
+    rm = re.fullmatch(r"([\w.]+)\.entry\((.*?)\)\.or_default\(\)\.entry\((.*?)\)\.or_insert\((.*)\)", raw)
+    recv, k1, k2, init = rm.group(1), rm.group(2), rm.group(3), rm.group(4)
+    # REST: up to the closing brace of the enclosing block
+    depth, end = 0, None
+    for i in range(semi + 1, len(m)):
+        if m[i] == "{":
+            depth += 1
+        elif m[i] == "}":
+            if depth == 0:
+                end = i
+                break
+            depth -= 1
+    if end is None:
+        raise Lost("R28: enclosing block not found")
+    rest = text[semi + 1:end]
+    for nm in names:
+        rest = re.sub(r"\*\s*" + re.escape(nm) + r"\b", nm, rest)
+        if re.search(r"(?<![\w.])" + re.escape(nm) + r"\s*=[^=]", L.mask(rest).replace(nm + " = ", nm + " = ", 1)) and False:
+            pass
+    if re.search(r"\breturn\b", L.mask(rest)):
+        raise Lost("R28: `return` after the entry binding")
+    head = (f"let mut inner__ = match {recv}.remove(&({k1})) {{ Some(m__) => m__, None => HashMap::new() }};\n"
+            f"        let slot__ = match inner__.remove(&({k2})) {{ Some(e__) => e__, None => {init} }};\n"
+            f"        let {ctor}({', '.join('mut ' + n for n in names)}) = slot__;")
+    tail = (f"        inner__.insert({k2}, {ctor}({', '.join(names)}));\n"
+            f"        {recv}.insert({k1}, inner__);\n    ")
+    log.append({"rule": "R28-nested-entry-binding", "before": text[mt.start():semi + 1],
+                "after": head + " ..; " + tail.strip(), "assumed": "std entry API: or_default / or_insert give the slot under the key, storing the default / the given value first when absent"})
+    return text[:mt.start()] + head + rest.rstrip() + "\n" + tail + text[end:]
+
+
+def r29_entry_or_insert_with(text, log):
+    """R29: `M.entry(K).or_insert_with(|| E)` (M a place expression, K of Copy parts) ->
+    `{ if !M.contains_key(&K) { let v__ = E; M.insert(K, v__); } M.get(&K).unwrap() }` (shared reference: the result must not be
+    written through - checked: it is only followed by `.get(`).
+    ASSUMED (std entry API): or_insert_with evaluates the closure and stores its value only when K is absent, and gives the value under K."""
+    m = L.mask(text)
+    mt = re.search(r"([\w.]+?)\s*\.entry\(", re.sub(r"\s+(?=\.)", lambda x: " " * len(x.group(0)), m))
+    mt = re.search(r"((?:\w+\s*\.\s*)*\w+)\s*\.\s*entry\(", m)
+    if not mt:
+        raise Lost("R29: no `M.entry(K)`")
+    recv = re.sub(r"\s+", "", mt.group(1))
+    po = mt.end() - 1
+    pc = L.match_close(m, po)
+    key = text[po + 1:pc].strip()
+    mo = re.match(r"\s*\.\s*or_insert_with\(\s*\|\|", m[pc + 1:])
+    if not mo:
+        raise Lost("R29: `entry(K)` is not followed by `.or_insert_with(|| ..)`")
+    oo = pc + 1 + m[pc + 1:].index("(", 0)
+    oc = L.match_close(m, oo)
+    clos = text[oo + 1:oc].strip()
+    body = clos[clos.index("||") + 2:].strip()
+    if not re.match(r"\s*\.\s*get\(", m[oc + 1:]):
+        raise Lost("R29: the entry value is used other than through `.get(..)`")
+    after = f"{{ if !{recv}.contains_key(&{key}) {{ let v__ = {body}; {recv}.insert({key}, v__); }} {recv}.get(&{key}).unwrap() }}"
+    log.append({"rule": "R29-entry-or-insert-with", "before": re.sub(r"\s+", " ", text[mt.start():oc + 1]), "after": after,
+                "assumed": "std entry API: or_insert_with runs the closure and stores its value only when the key is absent"})
+    return text[:mt.start()] + after + text[oc + 1:]
+
+
 STRUCTURAL = {"R11c": r11_closure, "R14": r14_all, "R16m": r16_drop_methods, "R12d": r12_debug_assert, "R5": r5_for_bytes, "R7": r7_mut_self, "R0": r0_named_return, "R4": r4_format, "R12": r12_unreachable,
-              "R6": r6_for_enumerate, "R10": r10_drop_loop, "R25": r25_hashmap_iter_mut, "R25b": r25b_hashmap_into_iter, "R25c": r25c_hashmap_retain, "R25d": r25d_amount_iter, "R26": r26_forward_ref_op}
+              "R6": r6_for_enumerate, "R10": r10_drop_loop, "R25": r25_hashmap_iter_mut, "R25b": r25b_hashmap_into_iter, "R25c": r25c_hashmap_retain, "R25d": r25d_amount_iter, "R26": r26_forward_ref_op, "R27": r27_entry_match, "R28": r28_nested_entry_binding, "R29": r29_entry_or_insert_with}
 
 
 def apply_rewrites(text, rewrites, log):
